@@ -98,6 +98,60 @@ def emission_sites(repo: Repo) -> List[Site]:
     return sites
 
 
+_node_cfg: Dict[int, CFG] = {}
+_node_call: Dict[int, tuple] = {}
+
+
+def cfg_of_node(site: Site, dnode: Node) -> CFG:
+    """the CFG the deciding node lives in: the site's own function, or the helper that computes the label"""
+    return _node_cfg.get(id(dnode), site.cfg)
+
+
+def to_caller(dnode: Node, e: ast.AST) -> ast.AST:
+    """an expression of the label helper seen from the emission site: a bare parameter name becomes the argument passed for it"""
+    info = _node_call.get(id(dnode))
+    if info is None or not isinstance(e, ast.Name):
+        return e
+    call, g = info
+    params = list(g.params)
+    if g.cls is not None and "staticmethod" not in g.decorators and params:
+        params = params[1:]
+    if e.id in params:
+        i = params.index(e.id)
+        if i < len(call.args):
+            return call.args[i]
+        for k in call.keywords:
+            if k.arg == e.id:
+                return k.value
+    return e
+
+
+def _label_helper(site: Site, call: ast.Call):
+    """the function of the same class / module that a label is computed by: `flag = self._change_flag(...)`"""
+    from ..model import Repo  # noqa: F401
+
+    f = site.func
+    if isinstance(call.func, ast.Attribute) and isinstance(call.func.value, ast.Name) and f.params and call.func.value.id == f.params[0] and f.cls is not None:
+        k = f.cls
+        seen = set()
+        stack = [k]
+        while stack:
+            c = stack.pop()
+            if c.key in seen:
+                continue
+            seen.add(c.key)
+            if call.func.attr in c.methods:
+                return c.methods[call.func.attr]
+            stack.extend(c.bases)
+    if isinstance(call.func, ast.Name):
+        g = f.module.funcs.get(call.func.id)
+        if g is not None:
+            return g
+        q = f.qualname + "." + call.func.id
+        return f.module.funcs.get(q)
+    return None
+
+
 def flag_values(site: Site) -> List[Tuple[Optional[str], Node, str]]:
     """Possible (constant flag label, CFG node where it is decided, how) for a site."""
     from ..defuse import def_value, reaching_defs
@@ -115,6 +169,24 @@ def flag_values(site: Site) -> List[Tuple[Optional[str], Node, str]]:
                 out.append((v.value, d, "var"))
             elif isinstance(v, ast.IfExp):
                 out.append(("?ifexp", d, "ifexp"))
+            elif isinstance(v, ast.Call) and _label_helper(site, v) is not None:
+                g = _label_helper(site, v)
+                gcfg = cfg_of(g)
+                got = False
+                for r in gcfg.stmts(ast.Return):
+                    rv = r.ast.value
+                    if isinstance(rv, ast.Constant) and isinstance(rv.value, str):
+                        _node_cfg[id(r)] = gcfg
+                        _node_call[id(r)] = (v, g)
+                        out.append((rv.value, r, "var"))
+                        got = True
+                    elif rv is None or (isinstance(rv, ast.Constant) and rv.value is None):
+                        continue  # "no change": the caller has to test for it
+                    else:
+                        got = False
+                        break
+                if not got:
+                    out.append((None, d, "var?"))
             else:
                 out.append((None, d, "var?"))
         return out or [(None, site.node, "undefined-var")]
